@@ -4,6 +4,7 @@ import "covr/internal/e1"
 
 // Scope returns the directed scoping cases (C03).
 func Scope() []*e1.Program {
+	withFmt := func(p *e1.Program) *e1.Program { p.Imports = []string{"fmt"}; return p }
 	return []*e1.Program{
 		G("scope-for-post-reads-shadowed-name", `
 a := 42
@@ -40,6 +41,106 @@ if tr.B(4) {
 	YIELD(0)
 	a, d := 7, 8
 	YIELD(a + d)
+}
+YIELD(get())
+RETNIL`, "partial-redeclaration"),
+		withFmt(G("scope-partial-redeclaration-untyped-constants", `
+var a float64 = 1
+var p *int
+var e error
+var s any
+geta := func() int { return tr.R(1, int(a*10)) }
+getp := func() int { if p == nil { return tr.R(2, 0) }; return tr.R(2, *p) }
+gete := func() int { if e == nil { return tr.R(3, 0) }; return tr.R(3, len(e.Error())) }
+gets := func() int { if s == nil { return tr.R(4, 0) }; return tr.R(4, len(s.(string))) }
+YIELD(geta())
+a, b := 2, 3
+YIELD(geta() + b)
+n := 7
+YIELD(getp())
+p, c := &n, 1
+YIELD(getp() + c)
+p, d := nil, 2
+YIELD(getp() + d)
+e, f := fmt.Errorf("abc"), 1
+YIELD(gete() + f)
+e, g := nil, 2
+YIELD(gete() + g)
+str := "hello"
+s, h := str, 1
+YIELD(gets() + h)
+s, j := "hi", 2
+YIELD(gets() + j)
+RETNIL`, "partial-redeclaration")),
+		G("scope-partial-redeclaration-tuples-and-commaok", `
+m := map[int]int{1: 10}
+var x any = 5
+ch := make(chan int, 1)
+ch <- 4
+v, ok := m[1]
+get := func() int { if ok { return tr.R(1, v) }; return tr.R(1, -v-1) }
+YIELD(get())
+btoi := func(b bool) int { if b { return 1 }; return 0 }
+v, ok2 := m[2]
+YIELD(get() + btoi(ok2))
+w, ok := x.(string)
+YIELD(get() + len(w))
+v, ok = 3, true
+YIELD(get())
+u, ok := <-ch
+YIELD(get() + u)
+v, z := pairOf(v)
+YIELD(get() + z)
+v, ok, y := 8, false, 1
+YIELD(get() + y)
+RETNIL`, "partial-redeclaration"),
+		G("scope-partial-redeclaration-order-of-evaluation", `
+a, b := 1, 2
+get := func() int { return tr.R(1, a*10+b) }
+YIELD(get())
+a, c := 5, get()
+YIELD(get() + c*1000)
+b, a, d := a, b, get()
+YIELD(get() + d*1000)
+a, b, e := tr.V(2, 7), 9, tr.V(3, get())
+YIELD(get() + e*1000)
+RETNIL`, "partial-redeclaration"),
+		G("scope-partial-redeclaration-in-case-and-loop", `
+for i := 0; i < 2; i++ {
+	a := i
+	p := &a
+	switch tr.N(1, 2) {
+	case 0:
+		t := 5
+		q := &t
+		YIELD(t)
+		t, u := 6, 7
+		YIELD(*q + u)
+	default:
+		var t2 = 9
+		r := &t2
+		YIELD(a)
+		t2, w := 40, 2
+		YIELD(*r + w)
+	}
+	if tr.B(2) {
+		YIELD(a)
+	}
+	a, k := a+1, 3
+	YIELD(*p + k)
+}
+RETNIL`, "partial-redeclaration"),
+		// (redeclaring a PARAMETER at the top of the body cannot be compared: in the reference rendering the body
+		// is a function literal, where `a, b :=` declares a new a by Go's own rules)
+		G("scope-partial-redeclaration-without-yield-between", `
+YIELD(0)
+a := 1
+get := func() int { return tr.R(1, a) }
+a, b := 2, 3
+YIELD(get() + b)
+{
+	a, c := 4, 5
+	YIELD(get() + a + c)
 }
 YIELD(get())
 RETNIL`, "partial-redeclaration"),
